@@ -267,6 +267,10 @@ SQL_POOL_EXTRA = (
     ("join", ("K",), None, False, None, "direct"),
     ("join", ("K",), P_D_GT_A, True, ("a",), "direct"),
     ("join", ("Y", ("proj", ("a", "b"))), None, False, ("a",), "direct"),
+    # unresolved explicit requests (min_columns != max_columns): the join itself intersects and checks
+    ("join", ("K",), None, False, ("mm", ("a",), ("a", "b"))),
+    ("join", ("K",), P_D_GT_A, True, ("mm", (), ("b",))),
+    ("join", ("K2",), None, False, ("mm", ("b",), None), "direct"),
 )
 SQL_WIDE = SQL_FULL + SQL_POOL_EXTRA
 
